@@ -739,6 +739,21 @@ void abtmc_post(const volatile void *vaddr, unsigned size, int kind, int wrote)
     }
 }
 
+void abtmc_after_release(const volatile void *addr)
+{
+    if (!abtmc_g.active)
+        return;
+    cthr *t = self();
+    (void)addr;
+    count_op();
+    t->pkind = K_LIBC;
+    t->wk = W_NONE;
+    schedule();
+    /* the plain code that follows is a step of its own: the state at the next
+     * scheduling point of this thread differs from the one just passed */
+    t->h = abtmc_mix(t->h, 0x5700);
+}
+
 /* a scheduling point for a libc-level operation (no memory location) */
 static cthr *libc_point(int tag, const void *obj)
 {
@@ -1271,6 +1286,7 @@ int abtmc_pthread_mutex_unlock(pthread_mutex_t *m)
         return pthread_mutex_unlock(m);
     cthr *t = libc_point(2, m);
     do_mutex_unlock(t, m);
+    abtmc_after_release(m);
     return 0;
 }
 int abtmc_pthread_mutex_init(pthread_mutex_t *m, const pthread_mutexattr_t *a)
